@@ -26,6 +26,20 @@ theorem handle_gen (cs : List Child) (level : Int) (r0 : Result) :
       rw [List.filter_cons_of_neg (by simp [he'])]
       exact ⟨rfl, rfl⟩
 
+theorem foldl_stepExc_true (level : Int) : ∀ (cs : List Child) (r : Result),
+    cs.foldl (stepExc true level) { res := r, unwound := false } =
+      { res := cs.foldl (stepR level) r, unwound := false }
+  | [], r => rfl
+  | c :: cs, r => by
+    simp only [List.foldl_cons]
+    have : stepExc true level { res := r, unwound := false } c = { res := stepR level r c, unwound := false } := by
+      unfold stepExc stepR
+      by_cases he : c.enabled level = true
+      · cases ho : c.outcome <;> simp [he, ho, runChild, addErr]
+      · simp [he]
+    rw [this]
+    exact foldl_stepExc_true level cs _
+
 end ML
 
 namespace TLSpec
